@@ -1,3 +1,85 @@
-import PGM.Model.Dataset
+import PGM.Proofs.Dataset
+/-!
+# C15 — datasets vectorise to their contingency table; projection commutes; domain laws
+
+Theorems about `PGM/Model/Dataset.lean` and `PGM/Model/Domain.lean` (hand models of
+`src/mbi/dataset.py`, `src/mbi/domain.py`, tied to the code by the correspondence run).
+The scalar type is arbitrary; where sums are rearranged the needed laws of `Scalar.add`
+(associative, commutative, `zero` neutral) are explicit hypotheses, satisfied by ℚ and ℝ.
+-/
 namespace PGM.C15
+open PGM Dataset
+
+variable {α : Type} [Scalar α]
+
+/-- the vector form is the contingency table: the entry of cell `c` is the total weight of the
+records equal to `c` (records inside the domain) -/
+theorem datavector_eq_count (D : Dataset α) (hin : D.InDomain) (c : List Nat)
+    (hc : InRange D.dom.shape c) :
+    D.datavector[ravel D.dom.shape c]? = some (D.tableAt c) :=
+  Dataset.datavector_eq_count D hin c hc
+
+theorem datavector_length (D : Dataset α) : D.datavector.length = D.dom.size :=
+  Dataset.datavector_length D
+
+/-- boundary behaviour of the histogram: a value equal to the attribute's size is counted in the
+last bin, anything further out drops the record -/
+theorem bin1_boundary (n : Nat) (hn : 0 < n) :
+    bin1 n (n : Int) = some (n - 1) ∧ bin1 n ((n : Int) + 1) = none ∧ bin1 n (-1) = none :=
+  Dataset.bin1_boundary n hn
+
+/-- **projection commutes with marginalising and transposing the table**: for any duplicate-free
+list `cols` of domain attributes in any order, the vector of the projected dataset at cell `c'`
+is the sum, over all settings of the dropped attributes, of the full table — weights carried. -/
+theorem datavector_project_comm (D : Dataset α) (cols : List Attr)
+    (hassoc : ∀ a b c : α, Scalar.add (Scalar.add a b) c = Scalar.add a (Scalar.add b c))
+    (hcomm : ∀ a b : α, Scalar.add a b = Scalar.add b a)
+    (hzero : ∀ a : α, Scalar.add Scalar.zero a = a)
+    (hD : D.dom.WF) (hin : D.InDomain) (hcols : cols.Nodup) (hsub : ∀ a ∈ cols, a ∈ D.dom.attrs)
+    (c' : List Nat) (hc' : InRange (D.dom.project cols).shape c') :
+    (D.project cols).tableAt c' =
+      Scalar.sum ((cells ((D.dom.invert cols).map D.dom.cfg)).map
+        (fun v => D.tableAt (D.dom.attrs.map (Dom.override (Dom.assign cols c') (D.dom.invert cols) v)))) :=
+  Dataset.datavector_project_comm D cols hassoc hcomm hzero hD hin hcols hsub c' hc'
+
+/-- projecting keeps every record in the (projected) domain, so the two theorems compose -/
+theorem project_inDomain (D : Dataset α) (cols : List Attr) (hD : D.dom.WF) (hin : D.InDomain)
+    (hsub : ∀ a ∈ cols, a ∈ D.dom.attrs) : (D.project cols).InDomain :=
+  Dataset.project_inDomain D cols hD hin hsub
+
+/-! ### domain laws -/
+
+theorem project_project (d : Dom) (as bs : List Attr) (hd : d.WF) (has : as.Nodup)
+    (hsub : ∀ b ∈ bs, b ∈ as) (hsub' : ∀ a ∈ as, a ∈ d.attrs) :
+    (d.project as).project bs = d.project bs := Dom.project_project d as bs hd has hsub hsub'
+
+theorem merge_attrs (d o : Dom) (ho : o.WF) :
+    (d.merge o).attrs = d.attrs ++ o.attrs.filter (fun a => !d.attrs.contains a) :=
+  Dom.merge_attrs d o ho
+
+theorem size_merge (d o : Dom) : (d.merge o).size = d.size * (o.marginalize d.attrs).size :=
+  Dom.size_merge d o
+
+theorem size_project_mul_size_marginalize (d : Dom) (as : List Attr) (hd : d.WF) :
+    (d.project (d.canonical as)).size * (d.marginalize as).size = d.size :=
+  Dom.size_project_mul_size_marginalize d as hd
+
+theorem canonical_sublist (d : Dom) (as : List Attr) : (d.canonical as).Sublist d.attrs :=
+  Dom.canonical_sublist d as
+
+theorem invert_canonical_partition (d : Dom) (as : List Attr) :
+    ∀ a ∈ d.attrs, (a ∈ d.canonical as ∧ a ∉ d.invert as) ∨ (a ∉ d.canonical as ∧ a ∈ d.invert as) :=
+  Dom.invert_canonical_partition d as
+
+theorem sortSize_perm (d : Dom) (hd : d.WF) : d.sortSize.Perm d := Dom.sortSize_perm d hd
+
+theorem sortSize_sorted (d : Dom) (hd : d.WF) : d.sortSize.shape.Pairwise (· ≤ ·) :=
+  Dom.sortSize_sorted d hd
+
+theorem contains_iff_subset (d o : Dom) : d.contains o = true ↔ ∀ a ∈ o.attrs, a ∈ d.attrs :=
+  Dom.contains_iff_subset d o
+
+theorem axes_index (d : Dom) (as : List Attr) (hsub : ∀ a ∈ as, a ∈ d.attrs) (i : Nat) (hi : i < as.length) :
+    d.attrs[(d.axes as).getD i 0]? = as[i]? := Dom.axes_index d as hsub i hi
+
 end PGM.C15
